@@ -33,8 +33,12 @@ Tag(names, k) == {n \o "@" \o ToString(k) : n \in names}
 \* the reply that handed the client its latest token before step k (real replies: tk = [has, code, user, lvl] of each step)
 RECURSIVE PrevTk(_, _)
 PrevTk(v, k) == IF k <= 1 THEN NoPtk
-                ELSE IF v.steps[k - 1].tk.has THEN [code |-> v.steps[k - 1].tk.code, u |-> v.steps[k - 1].tk.user, l |-> v.steps[k - 1].tk.lvl]
-                ELSE PrevTk(v, k - 1)
+                ELSE LET s == v.steps[k - 1] IN
+                  IF s.tk.has
+                  THEN [code |-> s.tk.code, u |-> s.tk.user, l |-> s.tk.lvl,
+                        \* restricted BY HISTORY (what the client presented), not by what the server wrote into the new token
+                        r |-> s.m.k = "login" /\ (s.m.sec = "nologin" \/ (s.m.sec = "prev" /\ PrevTk(v, k - 1).r))]
+                  ELSE PrevTk(v, k - 1)
 StepBad(v, k) == LET s == v.steps[k] IN Violated(Pre(v, k), s.m, ObsCodes(s), ObsState(s), ObsDlv(s), PrevTk(v, k))
 
 ProbeBad(v) ==
@@ -57,7 +61,9 @@ Match(o, s) ==
   /\ (IF o.rep.echo THEN ObsIds(s) \subseteq {s.rid} ELSE ObsIds(s) \subseteq {""})
   /\ Proj(o.st) = ObsState(s)
   /\ o.dlv = ObsDlv(s)
-  /\ (s.tk.has => o.st.tok.code = s.tk.code /\ o.st.tok.u = s.tk.user /\ o.st.tok.l = s.tk.lvl)
+  \* the token the reply handed out: issuing code, owner, level AND its features as decoded from the real token bytes
+  /\ (s.tk.has => /\ o.st.tok.code = s.tk.code /\ o.st.tok.u = s.tk.user /\ o.st.tok.l = s.tk.lvl
+                  /\ o.st.tok.validated = s.tk.validated /\ o.st.tok.nologin = s.tk.nologin)
 
 RECURSIVE Track(_, _, _)
 Track(v, k, ms) ==
